@@ -498,6 +498,10 @@ def replay_history(rep):
             return 2
         from harness.c11 import exact_fraction_value
         print('exact rational value of the float network:', exact_fraction_value(net.build()))
+    elif rep['net'].get('dtyped'):
+        from harness.c11_dtypes import DNet
+        net = DNet.from_json(rep['net'])
+        print('dtype of each site (rows/cols):', net.dtype_map())
     else:
         net = Net.from_json(rep['net'])
     exact = Fraction(exact_mantissa_value(net)) * Fraction(2) ** net.total_scale()
